@@ -148,6 +148,13 @@ def scenarios(tier: str) -> tuple[list[C07Scenario], list[C07Scenario]]:
                 grid.append(C07Scenario(handlers=handlers, lifecycle='one_by_one', user=user, settings=settings,
                                         holds=holds, horizon=t0 + 20.0, gap=gap, nf=nf,
                                         delays=False, early_user=False, time_dev=False))
+                if nf >= 1 and (df, de) in ((0.0, 2.0), (0.5, 4.5), (2.0, 5.5), (0.0, 8.0), (2.0, 2.0)):
+                    # the raw-event handler writes through its patch on every event: a patch filled in by a low-level handler during
+                    # the barrier must not let the change handlers through on the stale view
+                    noting = [dict(h, script=['ok+seen']) if h['id'] == 'ev' else h for h in handlers]
+                    grid.append(C07Scenario(handlers=noting, lifecycle='one_by_one', user=user, settings=settings,
+                                            holds=holds, horizon=t0 + 20.0, gap=gap, nf=nf, ev_patches=True,
+                                            delays=False, early_user=False, time_dev=False))
                 if nf == 0 and de > 1.0:
                     # a foreign label edit arrives while the barrier is up (the echo is still held): the daemon and the timer
                     # it makes match start right then, the change handlers wait
